@@ -66,7 +66,7 @@ def main():
     kept = 0
     for out in sorted(glob.glob("/tmp/mut/C*/out")):
         pid = out.split("/")[3]
-        for n in range(1, 13):
+        for n in range(1, 17):
             patch, demo, meta, conf = (os.path.join(out, f"{k}{n}.{e}") for k, e in (("patch", "diff"), ("demo", "rs"), ("meta", "json"), ("confirm", "json")))
             if not all(os.path.exists(x) for x in (patch, demo, meta, conf)):
                 continue
